@@ -85,10 +85,10 @@ def synth_cond(cls, fs, idx, fn, names, M):
     rnd = random.Random(12345)
     bits1, others = [], []
     for fi, f in enumerate(fs[:idx]):
-        if type(f) is M.Bitfield:
+        if isinstance(f, M.Bitfield):
             for bi, b in enumerate(f._bits):
                 (bits1 if b._width == 1 else others).append((fi, bi, b))
-        elif isinstance(f, M.UnsignedInt) and type(f) is not M.CompletionCode:
+        elif isinstance(f, M.UnsignedInt) and not isinstance(f, M.CompletionCode):
             others.append((fi, None, f))
     if len(bits1) > 10:
         raise Untranslated('predicate outside the fragment and too many candidate bits to tabulate')
@@ -159,7 +159,7 @@ def tr_cond(expr, arg, names, fields, M):
             raise Untranslated('predicate reads unknown field %s' % fname)
         fi = names.index(fname)
         f = fields[fi]
-        if type(f) is not M.Bitfield:
+        if not isinstance(f, M.Bitfield):
             raise Untranslated('predicate reads non-bitfield %s' % fname)
         bnames = [b.name for b in f._bits]
         if bname not in bnames:
@@ -171,10 +171,26 @@ def tr_cond(expr, arg, names, fields, M):
     raise Untranslated('predicate outside fragment: %s' % ast.dump(expr)[:80])
 
 
+def kind_of(f, M):
+    """The known field class whose encode/decode/create (and _length) the object really uses:
+    a subclass that overrides none of them is translated like its base; one that overrides any is
+    outside the fragment."""
+    t = type(f)
+    for K in (M.CompletionCode, M.UnsignedInt, M.Bitfield, M.VariableByteArray, M.ByteArray, M.String,
+              M.RemainingBytes):
+        if isinstance(f, K):
+            names = ['encode', 'decode', 'create'] + (['_length'] if issubclass(K, M.ByteArray) else [])
+            if all(getattr(t, n) is getattr(K, n) for n in names):
+                return K
+            raise Untranslated('%s overrides %s of %s' % (t.__name__, '/'.join(
+                n for n in names if getattr(t, n) is not getattr(K, n)), K.__name__))
+    raise Untranslated('field class %s outside fragment' % t.__name__)
+
+
 def tr_base(f, names, fields, M):
     """-> (base term, default val term, bitnames list)"""
-    t = type(f)
-    if t in (M.UnsignedInt, M.UnsignedIntMask, M.Timestamp, M.GroupExtensionIdentifier, M.EventMessageRevision):
+    t = kind_of(f, M)
+    if t is M.UnsignedInt:
         d = f.default if f.default is not None else 0
         if not isinstance(d, int) or isinstance(d, bool) or d < 0 or not isinstance(f.length, int) or f.length < 0:
             raise Untranslated('UnsignedInt default/length not a natural number')
@@ -187,7 +203,7 @@ def tr_base(f, names, fields, M):
     if t is M.Bitfield:
         ws, ds, ns = [], [], []
         for b in f._bits:
-            if type(b) not in (M.Bitfield.Bit, M.Bitfield.ReservedBit):
+            if not isinstance(b, M.Bitfield.Bit):
                 raise Untranslated('unknown bit class %s' % type(b).__name__)
             d = b.default if b.default is not None else 0
             if not isinstance(b._width, int) or b._width < 0 or not isinstance(d, int) or d < 0:
@@ -231,7 +247,7 @@ def synth_varlen(cls, fs, idx, fn, M):
     function returns, found by probing with three different assignments."""
     import random
     rnd = random.Random(54321)
-    cands = [j for j, g in enumerate(fs[:idx]) if isinstance(g, M.UnsignedInt) and type(g) is not M.CompletionCode]
+    cands = [j for j, g in enumerate(fs[:idx]) if isinstance(g, M.UnsignedInt) and not isinstance(g, M.CompletionCode)]
     alive = set(cands)
     for _ in range(4):
         obj = cls()
